@@ -13,9 +13,9 @@ Sampled (seeded, deterministic given VERIF_SEED):
   * random hypergraphs on 2..6 nodes with 0..8 hyperedges of total size 2..6, labels 0..n-1 / scattered (also negative)
     ints / strings, sources and targets handed over in random order, weighted and unweighted, extra isolated nodes,
     and three kinds of history: constructor only; constructor + remove_edge of one hyperedge; constructor (or add_edge)
-    receiving a hyperedge that is already present (re-insertion).  Failures after a re-insertion carry a key of their
-    own (one common key for the four degree functions, suffix "[after re-inserting a hyperedge]" elsewhere) because
-    they have a different cause than a failure on a plainly constructed hypergraph.
+    receiving a hyperedge that is already present (re-insertion).  A wrong degree after a re-insertion is reported
+    under one key of its own (common to the four degree functions), because it has a different cause than a wrong
+    degree on a plainly constructed hypergraph.
 On every such hypergraph: every node, every filter in {none, size=1..7, order=0..6} (exhaustive part: size=1..n+1,
 order=0..n), every bound max_hyperedge_size in 2..6 - which includes bounds below the largest hyperedge - and for the
 signature also the default bound None (documented as "the largest hyperedge size"; skipped on the empty hypergraph).
@@ -53,7 +53,6 @@ PROPERTY = "C12"
 
 M = "measures.directed."
 RAISES = "does not raise on admissible input"
-REINS = " [after re-inserting a hyperedge]"
 REKEY_DEG = "measures.directed.in_degree/out_degree(_sequence):a re-inserted hyperedge is counted once"
 BOUNDS = (2, 3, 4, 5, 6)
 TOL = 1e-9
@@ -76,8 +75,8 @@ class Rec:
         self.counts[name] = self.counts.get(name, 0) + 1
         if not cond:
             key = key or name
-            if self.reinserted:
-                key = rekey or key + REINS
+            if self.reinserted and rekey:
+                key = rekey
             n = self._perkey.get(key, 0)
             self._perkey[key] = n + 1
             if n < 2:
